@@ -105,6 +105,31 @@ def final (w : When) (ps : List Producer) : St := drain w (turns (enumFrom 0 ps)
 
 def run (w : When) (ps : List Producer) : List Ev := (final w ps).evs
 
+/-! ### the stale variant: cancellation tested when the batch of due items is gathered, not when each item is invoked
+(what `Trampoline._run` would do with `if not item.is_cancelled(): ready.append(item)` at dequeue time and an unconditional
+`invoke()` afterwards).  Items gathered into one batch run even if an earlier item of the batch disposed the subscription; the
+producers' own polls (`runTurn`) still stop `of`/`from_iterable`, but a step-wise producer's callbacks run. -/
+
+/-- a turn invoked without looking at the subscription state first; atoms after the first one still poll -/
+def runTurnStale (w : When) (p : Nat) : List Atom → St → St
+  | [], s => s
+  | a :: as, s => runTurn w p as (atom w p a s)
+
+def runBatchStale (w : When) : List (Nat × Producer) → St → St
+  | [], s => s
+  | (_, []) :: b, s => runBatchStale w b s
+  | (p, t :: ts) :: b, s => runBatchStale w b (requeue p ts (runTurnStale w p t s))
+
+def drainStale (w : When) : Nat → St → St
+  | 0, s => s
+  | f + 1, s =>
+    match s.queue with
+    | [] => s
+    | q => if s.disposed then { s with queue := [] }       -- cancelled at gathering time
+           else drainStale w f (runBatchStale w q { s with queue := [] })
+
+def runStale (w : When) (ps : List Producer) : List Ev := (drainStale w (turns (enumFrom 0 ps)) (init w ps)).evs
+
 /-- keep everything up to and including the m-th notification -/
 def cut : Nat → List Ev → List Ev
   | 0, _ => []
